@@ -94,7 +94,7 @@ PROPS['C11'] = {
         dict(name='chunk_u64_le2p31', kernel='C11_bulk.cpp', prefix='chunk_', mode='seq', inline=20000, unwind=34, lower_defs=['-DSHAPE=std::uint64_t'], params=[0, 1], unwind_obligation=True),
         dict(name='chunk_i32_le2p31', kernel='C11_bulk.cpp', prefix='chunk_', mode='seq', inline=20000, unwind=34, lower_defs=['-DSHAPE=std::int32_t'], params=[0, 1], unwind_obligation=True),
         dict(name='bulk_run_W1_n20', kernel='C11_bulk_run.cpp', prefix='run_', mode='seq', inline=20000, unwind=10, lower_defs=['-DNMAX=20'], params=[1], covers=[0], timeout=1800),
-        dict(name='bulk_run_W2_n36', kernel='C11_bulk_run.cpp', prefix='run_', mode='seq', inline=20000, unwind=12, lower_defs=['-DNMAX=36'], params=[2], covers=[0], timeout=7000, tiers=('thorough',), unwind_rules=[(r'create_work', 26)]),
+        dict(name='bulk_run_W2_n24', kernel='C11_bulk_run.cpp', prefix='run_', mode='seq', inline=20000, unwind=12, lower_defs=['-DNMAX=24'], params=[2], covers=[0], timeout=3600, tiers=('thorough',), unwind_rules=[(r'create_work', 26)]),
     ] + [
         dict(name='tile_u32_W%d' % w, kernel='C11_bulk.cpp', prefix='tile_', mode='seq', inline=20000, unwind=34, lower_defs=['-DSHAPE=std::uint32_t'], params=[w], covers=[0],
              partial_loops_assume=True, timeout=1200, tiers=('quick', 'thorough') if w in (1, 2, 3) else ('thorough',)) for w in (1, 2, 3, 4, 5, 7, 8, 16)
@@ -126,7 +126,7 @@ PROPS['C09'] = {
     'queries': [
         _c09('latch_P2', 'lat_'), _c09('barrier_P2', 'bar_', unwind=4), _c09('event_T3', 'evt_'), _c09('call_once_T2', 'onc_'),
         _c09('barrier_P3_1phase', 'bar_', 3, unwind=4, timeout=3000, defs=['-DNPHASE=1']),
-        _c09('barrier_drop_P2', 'bard_', unwind=4),
+        _c09('barrier_drop_P2', 'bard_', unwind=4), _c09('call_once_throwing_T2', 'oncx_', unwind=4),
         _c09('latch_P3', 'lat_', 3, ('thorough',), timeout=7000), _c09('barrier_P3', 'bar_', 3, ('thorough',), R=4, unwind=5, timeout=3600, mem_gb=40),
     ],
 }
